@@ -337,9 +337,21 @@ func (w *Writer) scanExpressionFeatures(ep *ir.EntryPoint) {
 // scanStatementsForFeatures checks statements for features.
 func (w *Writer) scanStatementsForFeatures(block ir.Block) {
 	for _, stmt := range block {
-		switch stmt.Kind.(type) {
+		switch k := stmt.Kind.(type) {
 		case ir.StmtImageAtomic:
 			w.features.request(FeatureTextureAtomics)
+		case ir.StmtBlock:
+			w.scanStatementsForFeatures(k.Block)
+		case ir.StmtIf:
+			w.scanStatementsForFeatures(k.Accept)
+			w.scanStatementsForFeatures(k.Reject)
+		case ir.StmtSwitch:
+			for i := range k.Cases {
+				w.scanStatementsForFeatures(k.Cases[i].Body)
+			}
+		case ir.StmtLoop:
+			w.scanStatementsForFeatures(k.Body)
+			w.scanStatementsForFeatures(k.Continuing)
 		}
 	}
 }
